@@ -43,7 +43,12 @@ fn run_case_n(steps_ok: StepFault, insps: Vec<Inspection>) -> (Result<bool, Stri
         StepFault::RequireMissing => vec![ArtifactRule::Require(vp("absent")), ArtifactRule::Allow(vp("*"))],
         _ => allow_all() };
     let expiry = if let StepFault::Expired = steps_ok { -1 } else { 30 };
-    let l = layout(vec![step("a", 1, &[&ka], allow_all(), step_rules)], insps, &[&ka], expiry);
+    // multi-party variants: threshold 2 with two functionaries whose links disagree, or with only one of the two links present
+    let kb2 = key(6);
+    let multi = matches!(steps_ok, StepFault::LinksDisagree | StepFault::TooFewLinks);
+    if let StepFault::LinksDisagree = steps_ok { write_link(links.path(), "a", kb2.key_id(), &signed_link(&link("a", &[], &[("x", 2)]), &[&kb2])); }
+    let l = if multi { layout(vec![step("a", 2, &[&ka, &kb2], allow_all(), step_rules)], insps, &[&ka, &kb2], expiry) }
+            else { layout(vec![step("a", 1, &[&ka], allow_all(), step_rules)], insps, &[&ka], expiry) };
     let owners: Vec<&in_toto::crypto::PrivateKey> = if let StepFault::BadOwnerSig = steps_ok { vec![&ka] } else { vec![&owner] };
     let lay = signed_layout(&l, &owners);
     let old = std::env::current_dir().unwrap();
@@ -56,11 +61,11 @@ fn run_case_n(steps_ok: StepFault, insps: Vec<Inspection>) -> (Result<bool, Stri
 }
 
 #[derive(Clone, Copy, Debug)]
-enum StepFault { None, MissingLink, WrongSigner, RuleFails, RuleFailsAfterMatchFromInspection, RuleFailsAfterMatchFromItself, RequireMissing, Expired, BadOwnerSig }
+enum StepFault { None, MissingLink, WrongSigner, RuleFails, RuleFailsAfterMatchFromInspection, RuleFailsAfterMatchFromItself, RequireMissing, Expired, BadOwnerSig, LinksDisagree, TooFewLinks }
 
 pub fn run(r: &mut Report) {
     // 1. whenever an earlier stage fails, the inspection command must not have run
-    for f in [StepFault::MissingLink, StepFault::WrongSigner, StepFault::RuleFails, StepFault::RuleFailsAfterMatchFromInspection, StepFault::RuleFailsAfterMatchFromItself, StepFault::RequireMissing, StepFault::Expired, StepFault::BadOwnerSig] {
+    for f in [StepFault::MissingLink, StepFault::WrongSigner, StepFault::RuleFails, StepFault::RuleFailsAfterMatchFromInspection, StepFault::RuleFailsAfterMatchFromItself, StepFault::RequireMissing, StepFault::Expired, StepFault::BadOwnerSig, StepFault::LinksDisagree, StepFault::TooFewLinks] {
         let (res, marker, linkfile) = run_case(f, inspection("insp", &["touch", "marker"], allow_all(), allow_all()));
         let ok = matches!(res, Ok(false)) && !marker && !linkfile;
         r.case("no-inspection-after-failed-stage", json!({"fault": format!("{:?}", f)}), "Err, command not run, no link file",
